@@ -168,7 +168,13 @@ where
             {
                 self.publish_value(
                     LocationAndType::Basic(*address),
-                    MemoryValue::Basic(Some(AccountInfo { code: None, ..info.clone() })),
+                    // Non-empty code is versioned separately under `Code(address)`. Keep the
+                    // (empty) code of a code-less account exactly as the journal produced it, so
+                    // a later reader hands revm the same `AccountInfo` the committed state would.
+                    MemoryValue::Basic(Some(AccountInfo {
+                        code: if has_code { None } else { info.code.clone() },
+                        ..info.clone()
+                    })),
                     estimate,
                     &mut write_set,
                 );
